@@ -206,71 +206,7 @@ Definition agree (c : case) : bool :=
 
 (** ** The property *)
 
-(** Plain fields that may accompany the structured ones in a generated paragraph. *)
-Definition plain_key_ok (k : str) : bool :=
-  match k with
-  | ch :: _ => (((65 <=? ch) && (ch <=? 90)) || ((97 <=? ch) && (ch <=? 122)))%N
-               && forallb (fun x => (((65 <=? x) && (x <=? 90)) || ((97 <=? x) && (x <=? 122))
-                                     || ((48 <=? x) && (x <=? 57)) || (x =? 45))%N) k
-  | [] => false
-  end.
-Definition plain_value_ok (s : str) : bool :=
-  match s, last_opt s with
-  | ch :: _, Some l => negb (py_isspace ch) && negb (py_isspace l) && negb (existsb py_islinebreak s)
-  | _, _ => false
-  end.
-
-(** A field as the specification sees it; [None] = outside the property's domain.
-    Domain: a list of AT LEAST ONE record, every record giving exactly the DOCUMENTED
-    sub-fields, in order, with non-empty whitespace-free values.  (A field with no
-    record is not representable in the format: documented exclusion.)
-    [strict]: also restrict the accompanying plain fields (built paragraphs). *)
-Definition sval_of (strict : bool) (k : cls) (key : str) (v : fvalue) : option sval :=
-  match spec_order k key with
-  | Some order =>
-      match v with
-      | Multi (r :: rs) =>
-          if forallb (fun r => list_eqb str_eqb (map fst r) order && forallb token_ok (map snd r)) (r :: rs)
-          then Some (SRows (map (map snd) (r :: rs))) else None
-      | _ => None
-      end
-  | None =>
-      match v with
-      | Plain s => if negb strict || (plain_key_ok key && plain_value_ok s) then Some (SText s) else None
-      | _ => None
-      end
-  end.
-
-Fixpoint spara_of (strict : bool) (k : cls) (p : para) : option spara :=
-  match p with
-  | [] => Some []
-  | (key, v) :: p' =>
-      match sval_of strict k key v, spara_of strict k p' with
-      | Some sv, Some sp => Some ((key, sv) :: sp)
-      | _, _ => None
-      end
-  end.
-
-Fixpoint distinct_keys (ks : list str) : bool :=
-  match ks with
-  | [] => true
-  | k :: ks' => negb (existsb (fun k' => str_eqb (ascii_lower k') (ascii_lower k)) ks') && distinct_keys ks'
-  end.
-
-Definition in_domain (k : cls) (p : para) : option spara :=
-  if distinct_keys (map fst p) then spara_of true k p else None.
-
-(** The paragraph the specification expects back from a spec-level paragraph. *)
-Definition fvalue_of_sval (k : cls) (key : str) (sv : sval) : fvalue :=
-  match sv with
-  | SRows rows => match spec_order k key with
-                  | Some order => Multi (spec_records order rows)
-                  | None => Multi []
-                  end
-  | SText s => Plain s
-  end.
-Definition para_of_spara (k : cls) (sp : spara) : para :=
-  map (fun kv => (fst kv, fvalue_of_sval k (fst kv) (snd kv))) sp.
+(** The property's domain ([in_domain], [spara_of], [para_of_spara]) is defined in MvSpec.v. *)
 
 (** The states of the object: after the build, after each edit.  The edits are
     Python list/dict operations performed by the caller; their meaning is the
